@@ -119,7 +119,10 @@ def run(sc: Dict[str, Any]) -> Dict[str, Any]:
                              None if c.get("full", False) else search_names)
             # folding a BatchNorm into a bias-free layer creates a bias the original layer did not have: the
             # "cost of the original model" clause is evaluated only where folding adds no parameter
-            adds_bias = tr["fold"] and any(nd["op"] in ("conv", "lin") and nd["bn"] and not nd["bias"] for nd in arch["nodes"])
+            adds_bias = tr["fold"] and (any(nd["op"] in ("conv", "lin") and nd["bn"] and not nd["bias"] for nd in arch["nodes"])
+                                        or any(nd["op"] == "bns" and nd["ins"][0] > 0
+                                               and arch["nodes"][nd["ins"][0] - 1]["op"] in ("conv", "lin")
+                                               and not arch["nodes"][nd["ins"][0] - 1]["bias"] for nd in arch["nodes"]))
             open_obs[c["name"]] = None if adds_bias else (_as_int(d), _as_int(k), _as_int(o))
         except Exception as e:
             open_obs[c["name"]] = None
